@@ -22,6 +22,8 @@ pub struct Script {
     pub ops: Vec<Op>,
     /// true: finish with into_inner(), false: with flush()
     pub into_inner: bool,
+    /// true: the fault plan is armed before `Package::open` (faults while the file is being read in)
+    pub arm_before_open: bool,
 }
 
 fn kv() -> Vec<ColDef> {
@@ -39,37 +41,82 @@ pub fn scripts() -> Vec<Script> {
     let base = vec![create("T"), ins("T", rows3.clone())];
     let many: Vec<Vec<V>> = (0..600).map(|i| vec![V::Int(i + 10), V::Str(format!("t0x{} row {}", i + 10, "r".repeat((i % 40) as usize)))]).collect();
     vec![
-        Script { name: "create+insert", setup: Some(vec![]), ops: vec![create("T"), ins("T", rows3.clone())], into_inner: false },
+        Script { name: "create+insert", setup: Some(vec![]), ops: vec![create("T"), ins("T", rows3.clone())], into_inner: false, arm_before_open: false },
         Script {
             name: "update+delete",
             setup: Some(base.clone()),
             ops: vec![Op::Update { table: "T".into(), sets: vec![("V".into(), V::s("t0x9 updated"))], cond: keq(2) }, Op::Delete { table: "T".into(), cond: keq(1) }],
             into_inner: true,
+            arm_before_open: false,
         },
-        Script { name: "drop-table", setup: Some(base.clone()), ops: vec![Op::DropTable { name: "T".into() }], into_inner: false },
-        Script { name: "70KB-stream", setup: Some(base.clone()), ops: vec![Op::WriteStream { name: "Big.bin".into(), data: (0..70_000u32).map(|i| (i % 251) as u8).collect() }], into_inner: true },
+        Script { name: "drop-table", setup: Some(base.clone()), ops: vec![Op::DropTable { name: "T".into() }], into_inner: false, arm_before_open: false },
+        Script { name: "70KB-stream", setup: Some(base.clone()), ops: vec![Op::WriteStream { name: "Big.bin".into(), data: (0..70_000u32).map(|i| (i % 251) as u8).collect() }], into_inner: true, arm_before_open: false },
         Script {
             name: "summary-change",
             setup: Some(base.clone()),
             ops: vec![Op::Summary(SumOp::SetAuthor("t0x5 author é".into())), Op::Summary(SumOp::SetWordCount(2)), Op::Summary(SumOp::ClearTitle)],
             into_inner: false,
+            arm_before_open: false,
         },
-        Script { name: "codepage-change", setup: Some(base.clone()), ops: vec![Op::SetDbCodepage(1252), Op::Summary(SumOp::SetCodepage(1252))], into_inner: true },
-        Script { name: "long-string", setup: Some(base.clone()), ops: vec![ins("T", vec![vec![V::Int(7), V::Str(format!("t0x7{}", "L".repeat(70_000)))]])], into_inner: false },
+        Script { name: "codepage-change", setup: Some(base.clone()), ops: vec![Op::SetDbCodepage(1252), Op::Summary(SumOp::SetCodepage(1252))], into_inner: true, arm_before_open: false },
+        Script { name: "long-string", setup: Some(base.clone()), ops: vec![ins("T", vec![vec![V::Int(7), V::Str(format!("t0x7{}", "L".repeat(70_000)))]])], into_inner: false, arm_before_open: false },
         Script {
             name: "reopen-then-modify",
             setup: Some(vec![create("T"), ins("T", rows3.clone()), create("U"), ins("U", vec![vec![V::Int(1), V::s("t0x1 one")]])]),
             ops: vec![ins("U", vec![vec![V::Int(2), V::s("t0x8 new")]]), Op::Delete { table: "T".into(), cond: None }],
             into_inner: true,
+            arm_before_open: false,
         },
-        Script { name: "batch-insert-600", setup: Some(base.clone()), ops: vec![ins("T", many)], into_inner: false },
+        Script { name: "batch-insert-600", setup: Some(base.clone()), ops: vec![ins("T", many)], into_inner: false, arm_before_open: false },
         Script {
             name: "two-tables-sharing-strings",
             setup: Some(vec![create("A"), create("B")]),
             ops: vec![ins("A", vec![vec![V::Int(1), V::s("t0x1 shared")], vec![V::Int(2), V::s("t0x2 only a")]]), ins("B", vec![vec![V::Int(1), V::s("t0x1 shared")]]), Op::Delete { table: "A".into(), cond: keq(1) }],
             into_inner: false,
+            arm_before_open: false,
         },
-        Script { name: "package-create", setup: None, ops: vec![create("T"), ins("T", rows3)], into_inner: false },
+        // a table whose directory entry has two children in the container's name tree is removed
+        Script {
+            name: "drop-middle-of-three",
+            setup: Some(vec![create("Mm"), create("Aa"), create("Zz"), ins("Mm", vec![vec![V::Int(1), V::s("t0x1 m")]]), ins("Aa", vec![vec![V::Int(1), V::s("t0x2 a")]]), ins("Zz", vec![vec![V::Int(1), V::s("t0x3 z")]])]),
+            ops: vec![Op::DropTable { name: "Mm".into() }],
+            into_inner: false,
+            arm_before_open: false,
+        },
+        Script {
+            name: "remove-stream-among-many",
+            setup: Some(vec![
+                create("T"),
+                Op::WriteStream { name: "Mm.bin".into(), data: vec![1; 100] },
+                Op::WriteStream { name: "Aa.bin".into(), data: vec![2; 5000] },
+                Op::WriteStream { name: "Zz.bin".into(), data: vec![3; 100] },
+            ]),
+            ops: vec![Op::RemoveStream { name: "Mm.bin".into() }, Op::Summary(SumOp::SetWordCount(4))],
+            into_inner: true,
+            arm_before_open: false,
+        },
+        // faults while the file is read in: either open fails, or what was read is what is in the file
+        Script {
+            name: "open-under-faults-then-edit-summary",
+            setup: Some(vec![
+                create("T"),
+                ins("T", vec![vec![V::Int(1), V::s("t0x1 one")]]),
+                Op::Summary(SumOp::SetTitle("t0x4 title".into())),
+                Op::Summary(SumOp::SetAuthor("t0x5 author".into())),
+                Op::Summary(SumOp::SetSubject("t0x6 subject".into())),
+            ]),
+            ops: vec![Op::Summary(SumOp::SetWordCount(2))],
+            into_inner: false,
+            arm_before_open: true,
+        },
+        Script {
+            name: "open-under-faults-then-insert",
+            setup: Some(vec![create("T"), ins("T", vec![vec![V::Int(1), V::s("t0x1 one")], vec![V::Int(2), V::s("t0x2 two")]]), Op::Summary(SumOp::SetTitle("t0x4 title".into()))]),
+            ops: vec![ins("T", vec![vec![V::Int(3), V::s("t0x3 three")]])],
+            into_inner: true,
+            arm_before_open: true,
+        },
+        Script { name: "package-create", setup: None, ops: vec![create("T"), ins("T", rows3)], into_inner: false, arm_before_open: false },
     ]
 }
 
@@ -102,8 +149,12 @@ pub fn run_script(sc: &Script, base: Option<&[u8]>, fault: Option<Fault>) -> Run
     };
     let mut out = RunOutcome { all_ok: true, first_err: None, panic: None, fired: 0, site: None, counts: Default::default(), bytes: Vec::new() };
     let mut pkg_opt = None;
+    let plan = fault.unwrap_or(Fault { kind: FaultKind::Write, at: u64::MAX, persistent: false });
+    if sc.arm_before_open {
+        med.arm(plan);
+    }
     if base.is_some() {
-        // opening is done fault-free; the fault plan counts from here
+        // opening is done fault-free (unless the script says otherwise); the fault plan counts from where it is armed
         match guarded(|| msi::Package::open(med.handle())) {
             Ok(Ok(p)) => pkg_opt = Some(p),
             Ok(Err(e)) => {
@@ -116,7 +167,9 @@ pub fn run_script(sc: &Script, base: Option<&[u8]>, fault: Option<Fault>) -> Run
             }
         }
     }
-    med.arm(fault.unwrap_or(Fault { kind: FaultKind::Write, at: u64::MAX, persistent: false }));
+    if !sc.arm_before_open {
+        med.arm(plan);
+    }
     if base.is_none() {
         match guarded(|| msi::Package::create(msi::PackageType::Installer, med.handle())) {
             Ok(Ok(p)) => pkg_opt = Some(p),
@@ -294,7 +347,7 @@ pub fn run(ctx: &Ctx) -> Report {
         let stride_w = if is_create { if quick { 37 } else { 1 } } else { 1 };
         let big = p.counts.writes > 1500;
         let stride_w = if big && quick { stride_w.max(5) } else { stride_w };
-        let stride_rs = if quick { if is_create || big { 41 } else { 3 } } else if is_create { 3 } else { 1 };
+        let stride_rs = if p.sc.arm_before_open { 1 } else if quick { if is_create || big { 41 } else { 3 } } else if is_create { 3 } else { 1 };
         for k in (0..p.counts.writes).step_by(stride_w) {
             for persistent in [false, true] {
                 work.push((pi, Fault { kind: FaultKind::Write, at: k, persistent }));
@@ -335,9 +388,9 @@ pub fn run(ctx: &Ctx) -> Report {
     rep.merge(rep0);
     rep.add("scripts", preps.len() as u64);
     if !quick {
-        rep.exhaustive_parts.push("every write, read, seek and flush index of each of the 11 scripts, transient and persistent (Package::create: reads/seeks at stride 3)".into());
+        rep.exhaustive_parts.push("every write, read, seek and flush index of each script, transient and persistent (Package::create: reads/seeks at stride 3)".into());
     } else {
-        rep.exhaustive_parts.push("every write index of the 10 script regions (stride 5 for >1500-write scripts, stride 37 for Package::create), reads/seeks at stride 3, transient and persistent".into());
+        rep.exhaustive_parts.push("every write index of every script region (stride 5 for >1500-write scripts, stride 37 for Package::create), reads/seeks at stride 3, transient and persistent".into());
     }
     rep.sample(json!({"script": "update+delete", "fault": {"kind": "write", "at": 17, "persistent": false}, "oracle": "panic => violation; some call Err => no obligation; all Ok incl. into_inner => reopen(bytes) must equal the fault-free result"}));
     rep.sample(json!({"script": "package-create", "fault": {"kind": "write", "at": 2960, "persistent": true}}));
